@@ -11,7 +11,7 @@ for f in selftest/mutants/$P/*.patch; do
   [ -n "$only" ] && [ "$n" != "$only" ] && continue
   if ! git -C /repo apply --check /verif/$f 2>/dev/null; then echo "MUTANT $P/$n: patch does not apply"; fail=1; continue; fi
   git -C /repo apply /verif/$f
-  out=$(bin/govc check $P --tier quick --no-replay 2>&1); rc=$?
+  out=$(GOVC_EVIDENCE_DIR=/tmp/govc-selftest-evidence bin/govc check $P --tier quick --no-replay 2>&1); rc=$?
   git -C /repo checkout -- . 
   if [ $rc -eq 1 ]; then echo "MUTANT $P/$n: caught: $(echo "$out" | grep -m1 '  obligation' | sed 's/  obligation //')"; else echo "MUTANT $P/$n: MISSED (exit $rc)"; fail=1; fi
 done
@@ -21,7 +21,7 @@ for f in selftest/benign/$P/*.patch; do
   [ -n "$only" ] && [ "$n" != "$only" ] && continue
   if ! git -C /repo apply --check /verif/$f 2>/dev/null; then echo "BENIGN $P/$n: patch does not apply"; fail=1; continue; fi
   git -C /repo apply /verif/$f
-  out=$(bin/govc check $P --tier quick --no-replay 2>&1); rc=$?
+  out=$(GOVC_EVIDENCE_DIR=/tmp/govc-selftest-evidence bin/govc check $P --tier quick --no-replay 2>&1); rc=$?
   git -C /repo checkout -- .
   if [ $rc -eq 0 ]; then echo "BENIGN $P/$n: passes"; else echo "BENIGN $P/$n: FALSE ALARM: $(echo "$out" | grep -m1 '  obligation')"; fail=1; fi
 done
